@@ -1,13 +1,44 @@
 (* Property C06: par-mode encoding terminates, propagates failures and leaks no threads.
-   Statements only.  Fault plans (a failing read, out-of-range blocks) are part of the LTS of
-   Model/Par.v.  Proved here: for the named finite instances every schedule terminates, none
-   deadlocks, and the caller-visible outcome (Config / Source error) equals the single-threaded
-   reference (Proofs/ParSmall.v).  General statement: Proofs/ParP.v (status in DESIGN.md).
-   Real thread exit, the error kind and absence of hangs are observed on the implementation by the
-   PAR stream (threads alive after return, 20 s timeout, panic capture), and every recorded event
-   log must be a run of the extracted LTS. *)
-From FV Require Import Model.Base Model.Par Proofs.ParSmall.
+   Statements only; proofs in Proofs/ParP.v (general) and Proofs/ParSmall.v (finite instances).
+   Fault plans (a failing read at any index, any set of blocks with out-of-range samples) are part
+   of the LTS of Model/Par.v.
 
+   Proved for every number of workers W, every number of blocks, every fault plan, EVERY schedule:
+     - no infinite run: each step strictly decreases a potential, so no schedule from the initial
+       state is longer than 7*blocks + 4*W + 9 steps (C06_every_schedule_is_short);
+     - a run that reaches the final state returns exactly the single-threaded result, in particular
+       the same error (configuration error for an out-of-range block met before a failing read,
+       source error for a failing read) (C06_failures_propagate);
+     - at the final state the feeder is done and every worker and the hashing thread have exited
+       (C06_final_no_thread_left).
+   PARTIAL: deadlock freedom (every reachable non-final state has an enabled step) is established for
+   the named finite instances by complete exploration inside Coq (C06_*_w1) and observed on the
+   implementation by the PAR stream (threads alive after return, 20 s timeout, panic capture, every
+   recorded event log must be a run of the extracted LTS), not yet proved for all W. *)
+From FV Require Import Model.Base Model.Par Proofs.ParSmall Proofs.ParP.
+
+Theorem C06_every_schedule_is_short : forall (p : plan) (ls : list label) (s : pstate),
+  run p (init p) ls = Some s -> length ls <= 7 * p_blocks p + 4 * p_workers p + 9.
+Proof. exact every_schedule_is_short. Qed.
+Print Assumptions C06_every_schedule_is_short.
+
+Theorem C06_potential_decreases : forall (p : plan) (s : pstate) (l : label) (s' : pstate),
+  Inv p s -> step p s l = Some s' -> potential p s' < potential p s.
+Proof. exact potential_decreases. Qed.
+Print Assumptions C06_potential_decreases.
+
+Theorem C06_failures_propagate : forall (p : plan) (ls : list label) (s : pstate),
+  1 <= p_workers p -> run p (init p) ls = Some s -> final s = true -> result_of s = seq_result p.
+Proof. exact par_refines_seq. Qed.
+Print Assumptions C06_failures_propagate.
+
+Theorem C06_final_no_thread_left : forall (p : plan) (ls : list label) (s : pstate),
+  run p (init p) ls = Some s -> final s = true ->
+  (exists failed, s_f s = FDone failed) /\ forallb is_exit (s_w s) = true /\ s_h s = HExit.
+Proof. exact final_no_thread_left. Qed.
+Print Assumptions C06_final_no_thread_left.
+
+(* finite instances: all schedules terminate in the sequential outcome and none deadlocks *)
 Theorem C06_read_failure_w1 : all_schedules_ok (mkPlan 1 2 (Some 1) (fun _ => false)) 40 = true.
 Proof. exact par_w1_b2_readfail. Qed.
 Print Assumptions C06_read_failure_w1.
